@@ -14,7 +14,7 @@
 (* run id, reason) instead of stopping TLC, so that one TLC run judges     *)
 (* thousands of traces.  The verdict is the exported bad set.              *)
 (***************************************************************************)
-EXTENDS Names, Json, IOUtils, SequencesExt
+EXTENDS Names, FileOps, Json, IOUtils, SequencesExt
 
 Trace == ndJsonDeserialize(IOEnv.VERIF_TRACE)
 N == Len(Trace)
@@ -41,7 +41,7 @@ NoGen  == [active |-> FALSE, prefix |-> "", key |-> <<>>]
 NoCur  == [name |-> "", key |-> <<>>, file |-> "", undef |-> FALSE]
 NoPass == [errSeen |-> FALSE, exitErr |-> FALSE, content |-> FALSE, undefined |-> <<>>,
            ended |-> FALSE, printed |-> FALSE, deleted |-> FALSE, pkgs |-> 0]
-NoFiles == [renamed |-> {}, rewritten |-> {}]
+NoFiles == [renamed |-> {}, rewritten |-> {}, log |-> {}]
 
 
 Init ==
@@ -217,7 +217,8 @@ AddRet ==
 
 Rename ==
   /\ IsEvent("Rename")
-  /\ files' = [files EXCEPT !.renamed = @ \cup {Ev.file}]
+  /\ files' = [files EXCEPT !.renamed = @ \cup {Ev.file},
+                             !.log = @ \cup {[file |-> Ev.file, from |-> Ev.from, to |-> Ev.to, offset |-> Ev.offset]}]
   /\ Fail(Checks({
        <<"Rename: not the call being registered", Ev.from = cur.name /\ Ev.file = cur.file>>,
        <<"Rename: new name is not the registration result", Ev.to = lastAdd.res /\ Ev.to # Ev.from>> }))
@@ -330,6 +331,42 @@ RunEnd ==
         \cup (IF Ev.exit = 0 /\ Ev.post.present THEN Checks(PostOK(Ev.post)) ELSE {}))
   /\ UNCHANGED <<run, tabs, reserved, plugins, flags, stack, genf, cur, lastAdd, files, pass>>
 
+\* FileObs is written by the harness for every user file of the package after the run:
+\* token texts of gofmt(original) and of the file as it is now, and the renames of the
+\* trace mapped (by an independent scan) to token indices.
+FileObs ==
+  /\ IsEvent("FileObs")
+  /\ LET rens == ToSet(Ev.rens)
+         logged == {[from |-> r.from, to |-> r.to, offset |-> r.offset] : r \in {x \in files.log : x.file = Ev.file}}
+     IN Fail(Checks({
+          <<"FileObs: user file changed although the run renamed no call in it (C10)",
+              Ev.changed => Ev.file \in files.rewritten>>,
+          <<"FileObs: user file changed without -autoname/-dedup (C10)",
+              Ev.changed => (run.autoname \/ run.dedup)>>,
+          <<"FileObs: renames seen by the independent scan differ from the renames of the trace",
+              {[from |-> r.from, to |-> r.to, offset |-> r.offset] : r \in rens} = logged>>,
+          <<"FileObs: rewritten file is not its original with just the renamed call identifiers substituted (C10)",
+              (Ev.changed /\ Ev.single) => IntactTexts(Ev.before, Ev.after, rens)>>,
+          <<"FileObs: rewritten file is not a complete well-formed Go file (C10)", Ev.changed => Ev.parses>>,
+          <<"FileObs: rewritten file is not exactly the gofmt formatting of the substituted original (C10)",
+              (Ev.changed /\ Ev.single) => Ev.exact>> }))
+  /\ UNCHANGED <<run, tabs, reserved, plugins, flags, stack, genf, cur, lastAdd, files, pass>>
+
+\* PrefixObs is written by the harness (C12): the run used customised prefixes; its output and the
+\* output of the default run on the default-named twin package were canonicalised (every generated
+\* function named plugin(parameter types), bodies hashed over their tokens).
+PrefixObs ==
+  /\ IsEvent("PrefixObs")
+  /\ Fail(Checks({
+       <<"PrefixObs: renamed run and default run disagree on success (C12)", Ev.exitR = Ev.exitD>>,
+       <<"PrefixObs: generated functions differ from the default run beyond renaming (C12)",
+           (Ev.exitR = 0 /\ Ev.exitD = 0) => ToSet(Ev.canonR) = ToSet(Ev.canonD)>>,
+       <<"PrefixObs: output for a global -prefix is not textually the default output with the prefix substituted (C12)",
+           (Ev.exitR = 0 /\ Ev.exitD = 0 /\ Ev.globalOnly) => Ev.textual>>,
+       <<"PrefixObs: a call was not handled by the plugin the specification's longest-prefix rule selects (C12)",
+           \A i \in DOMAIN Ev.handled : Ev.handled[i].got = Ev.handled[i].want>> }))
+  /\ UNCHANGED <<run, tabs, reserved, plugins, flags, stack, genf, cur, lastAdd, files, pass>>
+
 \* events that carry no obligation at this layer
 Other ==
   /\ l <= N
@@ -341,7 +378,7 @@ Next ==
   \/ RunStart \/ PkgStart \/ Call \/ Dispatch \/ NoPlugin
   \/ SetFuncName \/ SetFuncNameRet \/ SetFuncNameAuto \/ GetFuncName \/ NewName \/ GetFuncNameRet
   \/ AddRet \/ Rename \/ Rewrite \/ GenStart \/ Generating \/ GenEnd
-  \/ PassEnd \/ PrintFile \/ DeleteFile \/ Reload \/ PkgExit \/ RunEnd \/ Other
+  \/ PassEnd \/ PrintFile \/ DeleteFile \/ Reload \/ PkgExit \/ RunEnd \/ FileObs \/ PrefixObs \/ Other
 
 Spec == Init /\ [][Next]_vars
 
